@@ -97,6 +97,7 @@ class Merged:
         self.per_backend = {}
         self.outcomes = set()
         self.tasks = 0
+        self.by_tag = {}
 
     def add(self, tag, backend, r):
         self.tasks += 1
@@ -115,6 +116,11 @@ class Merged:
             self.counters[k] = self.counters.get(k, 0) + v
         for k, v in r["digests"].items():
             self.digests.setdefault(k, {})[backend] = v
+        bt = self.by_tag.setdefault(tag, {"tasks": 0, "evaluations": 0, "violations": 0, "cpu_s": 0.0})
+        bt["tasks"] += 1
+        bt["evaluations"] += r["evals"]
+        bt["violations"] += r["nviol"]
+        bt["cpu_s"] = round(bt["cpu_s"] + r.get("cpu_s", 0.0), 1)
         pb = self.per_backend.setdefault(backend, {"evals": 0, "tasks": 0})
         pb["evals"] += r["evals"]
         pb["tasks"] += 1
